@@ -2,9 +2,11 @@ SPECIFICATION ISpec
 CONSTANTS
   Sym = {97, 10, 32, 9}
   MaxLen = 5
+  WithFailAt = FALSE
   MaxOps = 8
   ColBug = FALSE
   SetPosBug = FALSE
+  FailBug = FALSE
   EofBug = FALSE
 VIEW IViewDepth
 INVARIANTS ITypeOK Refines ReturnsAgree SavedExact FutureRefines
